@@ -4,6 +4,7 @@ def-use in the token actions)."""
 import ast
 import re
 
+from sa import cfg as cfgmod
 from sa import model
 from sa import regexlang
 from sa.model import AnalysisError
@@ -24,25 +25,47 @@ REFERENCE_ESCAPES = {
 
 
 def token_regex(fi):
-    doc = ast.get_docstring(fi.node, clean=False)
-    if not doc:
-        raise AnalysisError('token rule %s lost its regex docstring' %
-                            fi.key)
-    return doc
+    """The regex ply uses for this token rule (docstring or @lex.TOKEN)."""
+    from sa import grammar
+    return grammar.effective_token_regex(fi.name)
 
 
-def escape_regex(repo):
-    mod = repo.module(LEX)
-    node = mod.constants.get('ESCAPE_SEQUENCE_RE')
-    if not (isinstance(node, ast.Call) and node.args and isinstance(
+def regex_constant(repo, mod, name):
+    node = mod.constants.get(name)
+    if not (isinstance(node, ast.Call) and repo.resolve(
+            mod, node.func) == 're.compile' and node.args and isinstance(
             node.args[0], ast.Constant)):
-        raise AnalysisError('anchor vanished: ESCAPE_SEQUENCE_RE literal')
+        return None
     flags = 0
     if len(node.args) > 1:
         for n in ast.walk(node.args[1]):
             if isinstance(n, ast.Attribute) and hasattr(re, n.attr):
                 flags |= getattr(re, n.attr)
     return node.args[0].value, flags, node
+
+
+def escape_substitutions(repo):
+    """The <REGEX>.sub(callback, text) calls in decode_escapes whose regex
+    is a module-level compiled pattern."""
+    mod = repo.module(LEX)
+    de = mod.func('decode_escapes')
+    out = []
+    for c in model.calls_in(de.node, shallow=True):
+        if isinstance(c.func, ast.Attribute) and c.func.attr == 'sub' and \
+                isinstance(c.func.value, ast.Name):
+            rc = regex_constant(repo, mod, c.func.value.id)
+            if rc is not None and len(c.args) == 2:
+                out.append((c, c.func.value.id, rc))
+    return de, out
+
+
+def escape_regex(repo):
+    de, subs = escape_substitutions(repo)
+    if not subs:
+        raise AnalysisError('decode_escapes no longer substitutes with a '
+                            'module-level compiled regex: re-anchor C16')
+    c, name, rc = subs[0]
+    return rc
 
 
 def top_alternatives(pattern, flags):
@@ -66,23 +89,48 @@ def top_alternatives(pattern, flags):
 def check_escapes(repo, rep):
     mod = repo.module(LEX)
     pat, flags, node = escape_regex(repo)
-    # R16a: decode per matched escape
-    de = mod.func('decode_escapes')
-    ok_sub = False
+    # R16a: decode per matched escape, in ONE pass over the caller's text
+    de, subs = escape_substitutions(repo)
+    param = de.params()[0]
+    g = cfgmod.CFG(de.node)
+    single = len(subs) == 1
+    why = 'found %d substitution passes' % len(subs)
     cb = None
-    for c in model.calls_in(de.node, shallow=True):
-        if isinstance(c.func, ast.Attribute) and c.func.attr == 'sub' and \
-                model.norm(c.func.value) == 'ESCAPE_SEQUENCE_RE' and \
-                len(c.args) == 2 and isinstance(c.args[0], ast.Name) and \
-                isinstance(c.args[1], ast.Name) and \
-                c.args[1].id == de.params()[0]:
-            ok_sub = True
+    if single:
+        c, rname, rc = subs[0]
+        text = c.args[1]
+        use = g.node_of(c)
+        ok_text = isinstance(text, ast.Name) and text.id == param and all(
+            d is g.entry for d in cfgmod.reaching_defs(g, use, param))
+        if not ok_text:
+            single = False
+            why = 'the substitution runs over %s, not over the literal ' \
+                  'text itself' % model.norm(text)
+        if isinstance(c.args[0], ast.Name):
             cb = mod.functions.get(de.qualname + '.' + c.args[0].id)
-    rep.ob('R16a', de.key + '/per-escape-substitution', ok_sub,
-           'decode_escapes must rewrite the string with '
-           'ESCAPE_SEQUENCE_RE.sub(<callback>, s): only matched escape '
-           'sequences may be decoded, every other character stands for '
-           'itself', loc=mod.loc(de.node))
+        # what is returned: the substitution result, or the text unchanged
+        for r in [x for x in model.walk_shallow(de.node)
+                  if isinstance(x, ast.Return)]:
+            v = r.value
+            if v is c or (isinstance(v, ast.Name) and v.id == param and all(
+                    d is g.entry for d in cfgmod.reaching_defs(
+                        g, g.node_of(r), param))):
+                continue
+            if isinstance(v, ast.Name):
+                defs = cfgmod.reaching_defs(g, g.node_of(r), v.id)
+                if defs and all(isinstance(d.ast, ast.Assign) and
+                                d.ast.value is c for d in defs):
+                    continue
+            single = False
+            why = 'returns %s, which is not the result of the single ' \
+                  'substitution pass' % model.norm(v)
+    rep.ob('R16a', de.key + '/per-escape-substitution', single,
+           'decode_escapes must rewrite the literal with exactly one '
+           '<ESCAPE_RE>.sub(<callback>, s) pass over the literal text: only '
+           'matched escape sequences may be decoded, every other character '
+           'stands for itself, and the output of one decoding step must '
+           'never be scanned for escapes again (%s)' % why,
+           loc=mod.loc(de.node))
     ok_dec = False
     whole = False
     scope = [cb] if cb is not None else []
@@ -286,6 +334,41 @@ def check_keywords(repo, rep):
                 "self.keywords.get(%s.value, 'KEYWORD_STRING')" % tok
                 for s in els)
             ok = ok and keep and typ
+    allowed = {'self.keyword_to_val.get(%s.type, %s.value)' % (tok, tok)}
+    extra = [a for a in model.walk_shallow(fi.node)
+             if isinstance(a, ast.Assign) and model.norm(
+                 a.targets[0]) == tok + '.value' and
+             model.norm(a.value) not in allowed]
+    rep.ob('R16d', fi.key + '/keeps-its-text', not extra,
+           'a keyword that is not true/false/null must denote its own '
+           'text; the action rewrites it: %s' % [
+               model.norm(a) for a in extra], loc=mod.loc(
+                   extra[0] if extra else fi.node))
+    ff = mod.func('Lexer.t_FUNC')
+    ftok = ff.params()[-1]
+    ok_f = True
+    bad_f = []
+    for a in model.walk_shallow(ff.node):
+        if isinstance(a, ast.Assign) and model.norm(
+                a.targets[0]) == ftok + '.value':
+            v = a.value
+            txt = model.norm(v)
+            if txt == '%s.value[:-1]' % ftok:
+                continue
+            if isinstance(v, ast.Name):
+                vals = [x.value for x in model.walk_shallow(ff.node)
+                        if isinstance(x, ast.Assign) and any(
+                            isinstance(t, ast.Name) and t.id == v.id
+                            for t in x.targets)]
+                if vals and all(model.norm(x) == '%s.value[:-1]' % ftok
+                                for x in vals):
+                    continue
+            ok_f = False
+            bad_f.append(model.norm(a))
+    rep.ob('R16d', ff.key + '/keeps-its-text', ok_f,
+           'a function name must denote its own text (the token minus the '
+           'opening parenthesis); the action rewrites it: %s' % bad_f,
+           loc=mod.loc(ff.node))
     rep.ob('R16d', fi.key + '/word-dispatch', ok,
            'a word is an operator token if it is in the operator table, '
            'else true/false/null, else a KEYWORD_STRING carrying its own '
